@@ -7,6 +7,8 @@ import proc
 import world
 import worldscen as ws
 import execbody
+import cmdstatus
+import execseq
 
 R = '@R@'
 ALPHA = [' ', "'", '\\"', '*', '?', '$', '`', ';', '|', '&', '<', '>', '(', ')', '\t', '\n', 'a', 'b', '-', '=', '\xe9', '\xff', '#', '%s', '{', '}', '[', ']', '!', '..', '/']
@@ -158,8 +160,17 @@ def run(rep):
     tools = proc.Tools(sc)
     W = world.WorldCheck(sc, tools)
     vlib.lean_gate(rep, 'C13', sc, [
-        'the exec helper (harness/shim/exechelper.c) records argv, stdin bytes and /proc/self/fd of the child',
+        'the exec helper (harness/shim/exechelper.c) records argv, stdin bytes and /proc/self/fd of the child; run through a link named '
+        'cmd-exit-N / cmd-signal-N it ends that way',
+        'unit harness: a program named vstatus:... is not looked up by execvp(3), the child of the real exec() ends as the name says '
+        '(harness/unit/h_expr.c)',
+        cmdstatus.SIGNAL_NOTE,
         'fork/execvp/waitpid are the kernel\'s; the model sees fork and the wait status',
+        'C13_fd_hygiene / C13_fd_cloexec speak about Model.openFds (the descriptor table as a view of the trace); the tie to the '
+        'binary: tools/world.py maps an observed openat / open / fcntl / mkostemp / opendir to the constructors openRd / openExcl / '
+        'openPath / dupfd / mkostemp / opendir ONLY if its flags are exactly the close-on-exec form (opendir: FD_CLOEXEC of the '
+        'stream\'s descriptor, read back by the shim); any other form ends the call-by-call conformance; independently the '
+        'helper\'s /proc/self/fd record must be exactly 0, 1, 2 in every scenario',
     ])
     n = 150 if rep.tier == 'quick' else 12000
     seeds = [rng.randrange(1 << 30) for _ in range(n)]
@@ -176,6 +187,12 @@ def run(rep):
     # "reads the complete content from offset 0" when the transfer into the temporary file is disturbed (short counts, EINTR, ENOSPC,
     # file size limit): tools/execbody.py, shared with C11
     fault_cov = execbody.stage(rep, tools, whole_part=True)
+    # "all exit statuses/signals": every way a program can end or fail to start, as a `command` condition and as an `exec` action
+    # (tools/cmdstatus.py: real binary judged by the documented meaning, and the real evaluator in-process against Model.eval)
+    status_cov = cmdstatus.stage(rep, sc, tools, W, random.Random(rep.seed + 3))
+    # what a command reads on standard input across ACTION SEQUENCES (rewrites, renames, copies before / between / after the commands):
+    # tools/execseq.py, shared with C11
+    seq_cov = execseq.stage(rep, tools, W, focus='all')
     if corr_bad and not rep.violations:
         rep.violation({'obligation': 'correspondence: an exec scenario does not follow Model.mainP', 'disagreements': len(corr_bad), 'examples': corr_bad[:6]}, False)
     vlib.lean_conclude(rep)
@@ -192,6 +209,8 @@ def run(rep):
         'kinds': kinds,
         'correspondence_mismatches': len(corr_bad),
         'stdin_under_write_faults': fault_cov,
+        'command_status_family': status_cov,
+        'stdin_across_action_sequences': seq_cov,
     })
 
 
@@ -203,4 +222,9 @@ def replay(rep, path):
     vlib.lean_gate(rep, 'C13', sc, [])
     if j.get('stage') == 'execbody':
         execbody.replay(proc.Tools(sc), j)
+    if j.get('stage') == 'cmdstatus':
+        tools = proc.Tools(sc)
+        cmdstatus.replay_process(tools, world.WorldCheck(sc, tools), j)
+    if j.get('stage') == 'execseq':
+        execseq.replay(proc.Tools(sc), j)
     rep.coverage.update({'evaluations': 1, 'distinct_nontrivial': 1})
